@@ -83,6 +83,7 @@ def realise(hist, eol=b"\n", xref_w=(1, 4, 2), zero_type_width=False, nulls=True
                              # ... and how cross-reference and object streams are packed, and whether the objects a
                              # later revision redefines carry generation 1 (a reused free entry)
                              hybrid_free=(int(zero_type_width) == 1),
+                             index_desc=(int(zero_type_width) == 2),
                              # variant 2: the newest trailer omits /Info when the revision brings none of its own - the
                              # document then has no Info (the trailer is the newest one's, not a merge of all trailers)
                              drop_info=(int(zero_type_width) == 2 and k == len(hist) and k > 1),
